@@ -14,10 +14,11 @@ RULE = ('SQLite part: a case = initial values of 1-2 rows + 2-3 session scripts 
         'serializable / optimistic=False; ops: 8 kinds of locking lookup, plain fetch, read attribute into a register, write '
         'attribute := register read from the same row in the same transaction + constant, or constant; flush; commit() in the '
         'middle of the db_session; leaving and re-entering db_session on the same Database; creating a new row; end '
-        'commit/rollback; four '
+        'commit/rollback; five '
         'generators: free scripts, lock-read-rewrite against an early-reading writer, and two-transaction lockers that lock / '
         'read / rewrite the same row again after their intermediate commit while another session changes it, and sessions that '
-        'lock one row (or create an object) and rewrite ANOTHER row they read without lock while it is changed concurrently) + a schedule (one '
+        'lock one row (or create an object) and rewrite ANOTHER row they read without lock while it is changed concurrently, and '
+        'sessions that catch "database is locked" from a lookup / flush and retry in the same db_session) + a schedule (one '
         'choice among runnable actors per operation) + a layout (Database per actor: lock conflicts fail with "database is '
         'locked"; one shared Database: lock conflicts wait on the provider lock). Oracle: (1) from the step in which a session '
         'locked a row (or, serializable, first touched it) until that TRANSACTION ends (commit, rollback, failure), no step of '
@@ -116,7 +117,8 @@ def case_strategy():
         for _ in range(draw(st.integers(1, 2))):
             sess = draw(st.sampled_from([{}, {}, {}, {'optimistic': False}, {'optimistic': False}, {'serializable': True},
                                          {'immediate': True}]))
-            actors.append({'session': sess, 'ops': draw(st.lists(body, min_size=2, max_size=6)), 'end': draw(end)})
+            actors.append({'session': sess, 'ops': draw(st.lists(body, min_size=2, max_size=6)), 'end': draw(end),
+                           'catch_lock': draw(st.booleans())})
         return _cap_commits({'layout': draw(layout), 'rows': draw(rows), 'actors': actors, 'schedule': draw(schedule)})
     return build()
 
@@ -250,6 +252,40 @@ def otherrow_strategy():
     return build()
 
 
+def retry_strategy():
+    """a session that already has an open connection (it read something optimistically) asks for a lock / flushes while a
+    rival session of another Database object holds the write lock: 'database is locked'; the session catches the error and
+    retries in the SAME db_session, before or after the rival committed its change of the same row"""
+    st, lock, read, write, body, rows, layout, schedule, end = _strategies()
+
+    @st.composite
+    def build(draw):
+        o = draw(st.sampled_from([0, 0, 1]))
+        a = draw(st.integers(0, 2))
+        nhow = len(c35_lib.LOCK_HOWS)
+        lk = lambda: ['lock', o, draw(st.integers(0, nhow - 1))]
+        first = draw(st.sampled_from([[['read', o, a, 0]], [['fetch', o]], [['read', 1 - o, a, 1]], [['read', o, (a + 1) % 3, 1]]]))
+        attempt = draw(st.sampled_from([[lk()], [lk()], [['write', o, (a + 1) % 3, 3, draw(st.integers(1, 30))], ['flush']]]))
+        retries = [lk() for _ in range(draw(st.integers(1, 2)))]
+        work = [['read', o, a, 0], ['write', o, a, 0, draw(st.integers(1, 30))]]
+        s_ops = first + attempt + retries + work
+        s_actor = {'session': {}, 'ops': s_ops, 'end': 'commit', 'catch_lock': True}
+        grab = draw(st.sampled_from([[['lock', o, draw(st.integers(0, nhow - 1))]], [['lock', 1 - o, 0]],
+                                     [['write', o, (a + 2) % 3, 3, draw(st.integers(1, 30))], ['flush']]]))
+        t_ops = grab + [['read', o, a, 1], ['write', o, a, 1, draw(st.integers(1, 30))]]
+        t_actor = {'session': draw(st.sampled_from([{}, {}, {'immediate': True}, {'optimistic': False}])), 'ops': t_ops, 'end': 'commit',
+                   'catch_lock': draw(st.booleans())}
+        nretry_before = draw(st.integers(0, len(retries)))          # retries made while the rival still holds the lock
+        sch = [0] * len(first) + [1] * len(grab) + [0] * (len(attempt) + nretry_before) + [1] * (len(t_ops) - len(grab) + 1) \
+            + [0] * (len(s_ops) + 1)
+        actors = [s_actor, t_actor]
+        for pos, val in draw(st.lists(st.tuples(st.integers(0, len(sch) - 1), st.integers(0, 1)), max_size=2)):
+            sch[pos] = val
+        return _cap_commits({'layout': draw(st.sampled_from(['multi', 'multi', 'multi', 'shared'])), 'rows': draw(rows),
+                             'actors': actors, 'schedule': sch})
+    return build()
+
+
 def pg_grid():
     cells = []
     for shape in range(len(c35_lib.PG_SHAPES)):
@@ -287,13 +323,15 @@ def run(ctx):
         if verdict.message is not None:
             ctx.fail(case, verdict.message)
     try:
-        ctx.run_test(t, {'case': case_strategy()}, max_examples=ctx.scale(400, 800), name='schedules')
+        ctx.run_test(t, {'case': case_strategy()}, max_examples=ctx.scale(350, 800), name='schedules')
         if ctx.violation is None:
-            ctx.run_test(t, {'case': race_strategy()}, max_examples=ctx.scale(400, 900), name='races')
+            ctx.run_test(t, {'case': race_strategy()}, max_examples=ctx.scale(350, 900), name='races')
         if ctx.violation is None:
             ctx.run_test(t, {'case': relock_strategy()}, max_examples=ctx.scale(250, 400), name='relock')
         if ctx.violation is None:
-            ctx.run_test(t, {'case': otherrow_strategy()}, max_examples=ctx.scale(200, 400), name='otherrow')
+            ctx.run_test(t, {'case': otherrow_strategy()}, max_examples=ctx.scale(170, 400), name='otherrow')
+        if ctx.violation is None:
+            ctx.run_test(t, {'case': retry_strategy()}, max_examples=ctx.scale(150, 300), name='retry')
     finally:
         env.close()
 
